@@ -84,13 +84,19 @@ func (r *Recording) CorruptCases(full bool, stride int, repls []string) []Corrup
 			if !dense && p >= 8+10 && (off%int64(stride)) != 0 {
 				continue
 			}
+			role := roleOf(f, off)
 			for _, rp := range repls {
+				// payload bytes are covered by the CRC as a block: of the
+				// eight single-bit flips only the lowest and highest are tried
+				if role == "data" && strings.HasPrefix(rp, "bit") && rp != "bit0" && rp != "bit7" {
+					continue
+				}
 				nb := replace(b[off], rp)
 				if nb == b[off] {
 					continue
 				}
 				out = append(out, CorruptCase{Seq: r.SeqNo, File: f.File, Off: off, Repl: rp, Orig: b[off], New: nb,
-					Frame: fi, Role: roleOf(f, off), Kind: KindName(f.Type), IsLast: fi == nf-1})
+					Frame: fi, Role: role, Kind: KindName(f.Type), IsLast: fi == nf-1})
 			}
 		}
 	}
